@@ -1,7 +1,7 @@
 (* The concrete instances run by the correspondence check: the model pipeline with the tables
    regenerated from /repo, the reference semantics with the oracle tables. *)
 From LexVerif Require Import Base CharClass RangeMap Regex Spec SpecExec LexSpec Nfa Dfa NfaToDfa
-     Codegen Runtime Driver SpecDef Harness CharGen.
+     Codegen Runtime Driver SpecDef Harness CharGen ClassAlgProofs RulesetSemProofs EndToEnd.
 From LexVerif.Gen Require Import GenTables GenConsts GenOracle.
 
 Definition width_of (c : N) : N :=
@@ -23,6 +23,17 @@ Definition model_next (p : program) (kinds : list akind) (l : lexer ustate)
 
 Definition spec_rulesets (d : def) : result (list (list crule)) := def_rulesets d.
 Definition spec_wf (d : def) : bool := wf_def oracle_table d.
+
+(* the remaining decidable hypotheses of EndToEnd.lexer_correct: characters <= char::MAX and
+   non-inverted ranges in every closed rule and context; distinct action indices; and the
+   well-formedness of the definition with respect to the model's own tables *)
+Definition def_chars_ok_b (benv : builtin_env) (rss : list (list crule)) : bool :=
+  forallb (forallb (fun r => regex_chars_ok benv (cr_re r)
+                             && match cr_ctx r with Some c => regex_chars_ok benv c | None => true end)) rss.
+Definition model_hyps (d : def) : bool :=
+  wf_def builtin_table d && acts_distinct_b d
+  && match def_rulesets d with Ok rss => def_chars_ok_b builtin_table rss | Panic _ => false end.
+Definition model_certs (c : compiled) : bool := certs_ok_b c.
 
 Definition spec_new (input : list N) (with_str : bool) : sstate ustate :=
   s_init ustate input (mkU [] 0 with_str).
